@@ -75,3 +75,18 @@ package types
 
 //@ interface VFS.Delete
 //@   ensures true
+
+// ---------------------------------------------------------------------------
+// MetaStore: the durable metadata is the ghost g_persisted* state; only
+// CommitState changes it (atomically: all or nothing).
+// ---------------------------------------------------------------------------
+
+//@ interface MetaStore.SetStable
+//@   ensures true
+
+//@ interface MetaStore.GetStable
+//@   ensures true
+
+//@ interface MetaStore.Close
+//@   assigns self.closed
+//@   ensures self.closed
